@@ -155,7 +155,9 @@ macro_rules! lin {
         let r2 = r1.next(b);
         let r3 = x.next(a + b);
         let r4 = r1.next(-a);
-        (ord(&r0), ord(&r1), ord(&r2), ord(&r3), ord(&r4), r0 == x, r2 == r3, r4 == x)
+        // (the value as constructed must itself sit at the requested ordinal, not only the values stepped from it)
+        let (ox, o0) = (ord(&x), ord(&r0));
+        (if ox == o0 { o0 } else { i64::MIN + 9 }, ord(&r1), ord(&r2), ord(&r3), ord(&r4), r0 == x, r2 == r3, r4 == x)
       }),
     }
   };
@@ -209,7 +211,13 @@ pub fn linear_registry() -> Vec<Lin> {
     lin!("SolarMonth", 12, 119999, 1, None, |o: i64| SolarMonth::from_ym((o / 12) as isize, (o % 12 + 1) as usize), |t: &SolarMonth| t.get_year() as i64 * 12 + t.get_month() as i64 - 1),
     lin!("SolarDay", 0, NDAYS as i64 - 1, 1, None, |o: i64| sd_idx(cal(), o as usize), |t: &tyme4rs::tyme::solar::SolarDay| idx_of(t).map(|i| i as i64).unwrap_or(i64::MIN)),
     lin!("SolarTime", 0, NDAYS as i64 * 86400 - 1, 1, None, |o: i64| time_of(o), |t: &SolarTime| ord_time(t)),
-    lin!("SolarTerm", 24, 9999 * 24 + 23, 1, None, |o: i64| SolarTerm::from_index((o / 24) as isize, (o % 24) as isize), |t: &SolarTerm| t.get_year() as i64 * 24 + t.get_index() as i64),
+    // (odd ordinals are addressed through a negative index of the following year; the ordinal is only accepted if the
+    // term's instant is where the (year, index) label says: terms are 15.2184 days apart on average, within +-4 days)
+    lin!("SolarTerm", 24, 9999 * 24 + 23, 1, None, |o: i64| if o % 2 == 1 && o / 24 < 9999 { SolarTerm::from_index((o / 24 + 1) as isize, (o % 24 - 24) as isize) } else { SolarTerm::from_index((o / 24) as isize, (o % 24) as isize) }, |t: &SolarTerm| {
+      let o = t.get_year() as i64 * 24 + t.get_index() as i64;
+      let k = ((t.get_julian_day().get_day() - 1721414.6022) / 15.2184246).round() as i64 + 24;
+      if k == o { o } else { i64::MIN + 7 }
+    }),
     lin!("JulianDay", 1_000_000, 6_000_000, 1, None, |o: i64| JulianDay::from_julian_day(o as f64 + 0.25), |t: &JulianDay| (t.get_day() - 0.25) as i64),
     // a Julian date with a sub-second fraction (as term instants have): stepping by whole days keeps the fraction exactly
     // (the ordinal is scaled by 2^20 so that any change of the fraction shows)
